@@ -192,6 +192,9 @@ struct Model {
     st: St,
     entries: Vec<MEntry>,
     comment: Vec<u8>,
+    /// once the history became unspecified: how many leading entries had been completed before that
+    /// point (they must still be in the archive, unchanged, whenever finish() succeeds)
+    frozen_prefix: Option<usize>,
 }
 
 fn extra_valid(buf: &[u8], large: bool) -> bool {
@@ -217,14 +220,30 @@ const SRC: [(&str, &[u8]); 3] = [("src/deflated.txt", b"raw copy source, deflate
 
 impl Model {
     /// implicit end of the current entry when a new entry/finish is requested
+    /// Extra data was refused (reserved / ZIP64 / malformed / oversize). The call must return Err; what
+    /// the writer does afterwards (stay wedged in extra-data mode, or discard the data and carry on) is
+    /// not documented, so everything later is unspecified - except that the entries completed before
+    /// must survive and any archive a later finish() reports as a success must be valid.
+    fn refused_extra(&mut self) -> Expect {
+        self.go_unspecified();
+        Expect::Err
+    }
+    fn go_unspecified(&mut self) {
+        if self.frozen_prefix.is_none() {
+            let open = !matches!(self.st, St::Idle | St::Finished); // JustClosed: the last entry may still be open
+            self.frozen_prefix = Some(self.entries.len().saturating_sub(if open { 1 } else { 0 }));
+        }
+        self.st = St::Unspecified;
+    }
+
     fn close_current(&mut self) -> Expect {
         match self.st.clone() {
             St::ExtraLocal { buf, bad_opt, large } => {
                 if !extra_valid(&buf, large) {
-                    return Expect::Err; // state kept
+                    return self.refused_extra();
                 }
                 if bad_opt {
-                    self.st = St::Unspecified;
+                    self.go_unspecified();
                     return Expect::Err;
                 }
                 self.st = St::Idle;
@@ -232,7 +251,7 @@ impl Model {
             }
             St::ExtraCentral { buf, large } => {
                 if !extra_valid(&buf, large) {
-                    return Expect::Err;
+                    return self.refused_extra();
                 }
                 self.st = St::Idle;
                 Expect::Ok
@@ -255,7 +274,7 @@ impl Model {
             St::ExtraLocal { buf, large, .. } | St::ExtraCentral { buf, large } => {
                 if extra_valid(&buf, large) {
                     // pending extra data either still open or already ended
-                    self.st = St::Unspecified;
+                    self.go_unspecified();
                 }
                 Expect::Err
             }
@@ -287,7 +306,7 @@ impl Model {
                     Expect::Ok
                 }
                 St::AfterRaw | St::JustClosed => {
-                    self.st = St::Unspecified;
+                    self.go_unspecified();
                     Expect::Either
                 }
                 St::Unspecified => Expect::Either,
@@ -295,10 +314,10 @@ impl Model {
             Call::EndExtra => match self.st.clone() {
                 St::ExtraLocal { buf, bad_opt, large } => {
                     if !extra_valid(&buf, large) {
-                        return Expect::Err;
+                        return self.refused_extra();
                     }
                     if bad_opt {
-                        self.st = St::Unspecified;
+                        self.go_unspecified();
                         return Expect::Err;
                     }
                     self.st = St::File;
@@ -306,7 +325,7 @@ impl Model {
                 }
                 St::ExtraCentral { buf, large } => {
                     if !extra_valid(&buf, large) {
-                        return Expect::Err;
+                        return self.refused_extra();
                     }
                     self.st = St::File;
                     Expect::Ok
@@ -316,17 +335,17 @@ impl Model {
             Call::EndLocalStartCentral => match self.st.clone() {
                 St::ExtraLocal { buf, bad_opt, large } => {
                     if !extra_valid(&buf, large) {
-                        return Expect::Err;
+                        return self.refused_extra();
                     }
                     if bad_opt {
-                        self.st = St::Unspecified;
+                        self.go_unspecified();
                         return Expect::Err;
                     }
                     self.st = St::ExtraCentral { buf: vec![], large };
                     Expect::Ok
                 }
                 St::ExtraCentral { .. } => {
-                    self.st = St::Unspecified;
+                    self.go_unspecified();
                     Expect::Either
                 }
                 _ => Expect::Err,
@@ -337,11 +356,11 @@ impl Model {
                     return e;
                 }
                 if o.unspecified() {
-                    self.st = St::Unspecified;
+                    self.go_unspecified();
                     return Expect::Either;
                 }
                 if o.must_fail() {
-                    self.st = St::Unspecified;
+                    self.go_unspecified();
                     return Expect::Err;
                 }
                 self.entries.push(MEntry { name: name(*n), content: vec![], method: o.method_id(), password: None, raw: false });
@@ -363,7 +382,7 @@ impl Model {
                     return e;
                 }
                 if o.unspecified() {
-                    self.st = St::Unspecified;
+                    self.go_unspecified();
                     return Expect::Either;
                 }
                 // the option error may surface here or only when the extra data is ended
@@ -381,16 +400,16 @@ impl Model {
                     return e;
                 }
                 if o.unspecified() {
-                    self.st = St::Unspecified;
+                    self.go_unspecified();
                     return Expect::Either;
                 }
                 if o.must_fail() {
-                    self.st = St::Unspecified;
+                    self.go_unspecified();
                     return Expect::Err;
                 }
                 if *align > 32768 {
                     // may be refused (padding record cannot always be represented)
-                    self.st = St::Unspecified;
+                    self.go_unspecified();
                     return Expect::Either;
                 }
                 self.entries.push(MEntry { name: name(*n), content: vec![], method: o.method_id(), password: None, raw: false });
@@ -465,7 +484,7 @@ fn source_archive() -> Vec<u8> {
 pub fn check_sequence(seq: &[Call], info: &mut Info) -> Result<(), String> {
     let src = source_archive();
     let mut za = zip::ZipArchive::new(Cursor::new(&src[..])).map_err(|e| format!("harness: {e}"))?;
-    let mut model = Model { st: St::Idle, entries: vec![], comment: vec![] };
+    let mut model = Model { st: St::Idle, entries: vec![], comment: vec![], frozen_prefix: None };
     let mut w = std::mem::ManuallyDrop::new(ZipWriter::new(Cursor::new(Vec::new())));
     let mut out: Option<Vec<u8>> = None;
     let mut end_claim = true; // false once the model passed through Unspecified
@@ -539,14 +558,44 @@ pub fn check_sequence(seq: &[Call], info: &mut Info) -> Result<(), String> {
             let bytes = out.as_ref().unwrap();
             check_end_claim(bytes, &model).map_err(|e| format!("finish() succeeded but {e}  (sequence: {:?})", &full[..=i]))?;
         } else if matches!(c, Call::Finish) && res.is_ok() {
-            // unspecified history: the archive must at least be structurally valid
+            // unspecified history: success was reported, so the archive must be structurally valid and
+            // self-consistent, and the entries completed before the unspecified step must be intact
             let bytes = out.as_ref().unwrap();
-            let _ = bytes;
+            check_structure(bytes, &model).map_err(|e| format!("finish() succeeded (after a step whose effect is not documented) but {e}  (sequence: {:?})", &full[..=i]))?;
         }
     }
     info.nontrivial = saw_expected_err && !model.entries.is_empty();
     // drop must not panic either
     catch(move || unsafe { std::mem::ManuallyDrop::drop(&mut w) }).map_err(|p| format!("drop PANICKED after sequence {:?}: {p}", full))?;
+    Ok(())
+}
+
+/// What holds for ANY archive finish() reports as a success: it parses (gaps between records tolerated),
+/// every unencrypted entry decodes to its declared size and CRC, the crate's own reader opens it, and the
+/// entries completed before the history became unspecified are there, in order, with their content.
+fn check_structure(bytes: &[u8], m: &Model) -> Result<(), String> {
+    let p = parse::parse(bytes, parse::Opts::lenient()).map_err(|e| format!("the archive is not valid: {e}"))?;
+    let k = m.frozen_prefix.unwrap_or(0).min(m.entries.len());
+    if p.entries.len() < k {
+        return Err(format!("the archive has {} entries, but {k} had been completed successfully before", p.entries.len()));
+    }
+    for (i, (e, me)) in p.entries.iter().zip(m.entries.iter()).take(k).enumerate() {
+        if e.name != me.name.as_bytes() {
+            return Err(format!("entry {i} is named {:?}, expected {:?}", String::from_utf8_lossy(&e.name), me.name));
+        }
+        if me.password.is_none() && e.content.as_deref() != Some(&me.content[..]) {
+            return Err(format!("entry {i} ({:?}), completed before, no longer holds the {} bytes written to it", me.name, me.content.len()));
+        }
+    }
+    let mut za = zip::ZipArchive::new(Cursor::new(bytes)).map_err(|e| format!("the crate cannot reopen it: {e}"))?;
+    for i in 0..za.len() {
+        let enc = p.entries.get(i).map(|e| e.flags & 1 != 0).unwrap_or(false);
+        if enc {
+            continue;
+        }
+        let mut v = Vec::new();
+        za.by_index(i).map_err(|e| e.to_string()).and_then(|mut f| f.read_to_end(&mut v).map_err(|e| e.to_string())).map_err(|e| format!("entry {i} of the finished archive cannot be read back: {e}"))?;
+    }
     Ok(())
 }
 
@@ -616,6 +665,7 @@ fn alphabet() -> Vec<Call> {
         Call::SetComment(1),
         Call::StartEncrypted(7),
         Call::StartLong(0, 0),
+        Call::SetComment(3),
     ]
 }
 
@@ -661,7 +711,7 @@ fn reserved_id() -> BoxedStrategy<u16> {
 pub struct Seq(pub Vec<Call>);
 
 pub fn run(ctx: &mut Ctx) {
-    ctx.rule("exhaustive: EVERY sequence of up to D calls (quick 4, thorough 6) over an 18-letter alphabet covering the whole writer API (start_file good / bad level / unsupported method / encrypted, start_file_with_extra_data good / bad, start_file_aligned, write of plain data / valid extra record / reserved-id record, end_extra_data, end_local_start_central_extra_data, add_directory, add_symlink, raw copy, set_comment, finish, start_file with an unrepresentable 65536-byte name), each followed by finish() and drop; random: sequences of up to 200 calls over the full parameter domains (6 methods x 4 level classes x large_file, 9 data shapes incl. ZIP64-id/truncated/oversize extra records, alignments, comments up to 65536 bytes, names of 65536+ bytes for start_file/add_directory/add_symlink, records with every reserved header ID). extra_ids: every 16-bit header ID x {only record, second record} x {local, central-only} (exhaustive). Oracle: executable model of the documented state machine - no call panics; documented misuse returns Err; calls valid in their state return Ok; whenever finish() succeeds on a history without unspecified steps the archive parses strictly and holds exactly the successfully created entries with exactly the accepted bytes. Non-trivial = the sequence contains at least one expected-Err call and at least one created entry; enumerated sequences are distinct by construction.");
+    ctx.rule("exhaustive: EVERY sequence of up to D calls (quick 4, thorough 6) over a 19-letter alphabet covering the whole writer API (start_file good / bad level / unsupported method / encrypted, start_file_with_extra_data good / bad, start_file_aligned, write of plain data / valid extra record / reserved-id record, end_extra_data, end_local_start_central_extra_data, add_directory, add_symlink, raw copy, set_comment, finish, start_file with an unrepresentable 65536-byte name, set_comment with an unrepresentable 65536-byte comment), each followed by finish() and drop; random: sequences of up to 200 calls over the full parameter domains (6 methods x 4 level classes x large_file, 9 data shapes incl. ZIP64-id/truncated/oversize extra records, alignments, comments up to 65536 bytes, names of 65536+ bytes for start_file/add_directory/add_symlink, records with every reserved header ID). extra_ids: every 16-bit header ID x {only record, second record} x {local, central-only} (exhaustive). Oracle: executable model of the documented state machine - no call panics; documented misuse returns Err; calls valid in their state return Ok; whenever finish() succeeds on a history without unspecified steps the archive parses strictly and holds exactly the successfully created entries with exactly the accepted bytes; whenever finish() succeeds at all the archive parses, every entry decodes to its declared CRC/size, the crate reopens it, and the entries completed before the first unspecified step are intact. Non-trivial = the sequence contains at least one expected-Err call and at least one created entry; enumerated sequences are distinct by construction.");
     ctx.assume("undocumented-but-accepted inputs (Stored with an explicit level, Zstd levels far below -7, a second end_local_start_central_extra_data, write after a raw copy, alignment > 32768, flush) are 'either outcome, no panic' and end the end-claim for that history");
     if let Some(c) = ctx.replay_case("fuzz_raw") {
         let bytes = crate::util::unhex(c["bytes"].as_str().unwrap_or("")).unwrap_or_default();
